@@ -262,11 +262,27 @@ def icpert_checks(seed, npts):
     return out
 
 
+# parameters the modules document as free (read at call time, nothing else at module level is derived from them): the
+# relations must hold for other values as well, not only for the shipped default
+FREE_PARAMS = {'Conformally_flat': ['eps', 'kappa'], 'Schwarzschild_isotropic': ['M', 'kappa'], 'Szekeres': ['Amp'], 'Non_diagonal': ['kappa'],
+               'Collins_Stewart': ['kappa'], 'Rosquist_Jantzen': ['kappa'], 'EdS': ['kappa'], 'LCDM': ['kappa']}
+
+
 def _one(args):
-    name, seed, npts = args
+    name, seed, npts = args[:3]
     try:
         if name == 'ICPertFLRW':
             return name, icpert_checks(seed, npts), None
+        if len(args) > 3:
+            par, factor, shift = args[3:]
+            real = importlib.import_module(f'aurel.solutions.{name}')
+            old = getattr(real, par)
+            setattr(real, par, old * factor + shift)
+            try:
+                out = module_checks(name, f'{seed}/{par}', max(3, npts // 3))
+            finally:
+                setattr(real, par, old)
+            return f'{name}[{par}={old * factor + shift:.4g}]', out, None
         return name, module_checks(name, seed, npts), None
     except (Undecided, NeedResample) as e:
         return name, {}, f'undecided: {e}'
@@ -283,6 +299,7 @@ def run(R):
     R.trust('float64 evaluation of sin, sinh, exp, log, fractional powers, scipy.special.hyp2f1 and of sympy expressions at 40 digits')
     npts = 8 if R.tier == 'quick' else 32
     R.bounded.append(dict(function='aurel.solutions.*', bound=f'{npts} Latin-hypercube points of the domain per module (every coordinate range cut into {npts} slices, each visited); residual tolerance {TOL}'))
+    R.notes.append('free parameters varied (two other values each): ' + ', '.join(f'{m}.{p_}' for m, ps in FREE_PARAMS.items() for p_ in ps))
     R.notes.append('ICPertFLRW is a first-order perturbative initial condition (growth-rate fit f = Omega_m^(6/11)): not an exact solution, so (c) does not apply; (b) K = -1/2 d_t gamma holds exactly on the EdS background and is checked there for a generic perturbation Rc')
     for n in MODULES:
         mod = importlib.import_module(f'aurel.solutions.{n}')
@@ -291,7 +308,12 @@ def run(R):
                 R.under_contract(getattr(mod, fn))
     t0 = time.time()
     with mp.Pool(len(MODULES) + 1) as pool:
-        res = pool.map(_one, [(n, R.seed, npts) for n in MODULES + ['ICPertFLRW']])
+        jobs = [(n, R.seed, npts) for n in MODULES + ['ICPertFLRW']]
+        for n, pars in FREE_PARAMS.items():
+            for par in pars:
+                if hasattr(importlib.import_module(f'aurel.solutions.{n}'), par):
+                    jobs += [(n, R.seed, npts, par, 1.37, 0.11), (n, R.seed, npts, par, 0.43, 0.07)]
+        res = pool.map(_one, jobs)
     secs = time.time() - t0
     for name, out, err in res:
         if err:
@@ -302,7 +324,7 @@ def run(R):
             R.numeric.append(dict(obligation=f'{name} {label}', residual=worst))
             R.ob(f'solutions.{name}:{label}', name, 'numeric-ok' if ok else 'refuted', 'float64-jets', secs / (len(MODULES) * max(len(out), 1)),
                  f'worst relative residual {worst:.2e}' + ('' if ok else '; ' + detail), None if ok else [label],
-                 bounded=f'numeric: {npts} points', replay=(lambda o, name=name, label=label: native_replay(name, label, o)))
+                 bounded=f'numeric: {npts} points', replay=(lambda o, name=name.split('[')[0], label=label: native_replay(name, label, o)))
     R.extra['explanation'] = ('numeric evidence: the real solution modules evaluated on float64 Taylor jets (exact differentiation, binary64 values) at '
                               f'{npts} random points per module; obligations (a)-(d) with residual tolerance {TOL}; not counted as proved')
 
